@@ -25,7 +25,7 @@ from typing import Any, Dict, List, Optional, Tuple
 
 from harness.lib import scen
 
-MODELLED_NODE_TYPES = {"computer", "server", "printer", "switch", "router", "firewall"}
+MODELLED_NODE_TYPES = {"computer", "server", "printer", "switch", "router", "firewall", "wireless-router"}
 FW_ACLS = ["internal_inbound_acl", "internal_outbound_acl", "dmz_inbound_acl", "dmz_outbound_acl", "external_inbound_acl",
            "external_outbound_acl"]
 FW_PORTS = {"external_port": 1, "internal_port": 2, "dmz_port": 3}
@@ -68,6 +68,11 @@ def _o(v) -> str:
     return "-" if v is None else str(v)
 
 
+def _num(v) -> str:
+    """A duration as built: the number, or - when it is not an integer - its repr (so that a stored string '6' is not mistaken for 6)."""
+    return str(v) if isinstance(v, int) and not isinstance(v, bool) else repr(v)
+
+
 def built_file_name(f: Dict) -> str:
     """File.__init__: a name without extension gets the extension of its declared type (`passwords` + TXT -> `passwords.txt`)."""
     name = f["file_name"]
@@ -104,18 +109,30 @@ def inventory(game, cfg: Dict) -> List[str]:
     from primaite.simulator.system.applications.application import Application
     net = game.simulation.network
     decl_nodes = {n["hostname"]: n for n in cfg.get("simulation", {}).get("network", {}).get("nodes", [])}
+    dflt = cfg.get("defaults") or {}
     out: List[str] = []
     for node in net.nodes.values():
         h = _name(node.config.hostname)
         c = node.config
-        out.append(f"node {h} {node._discriminator} {node.operating_state.name} sud={c.start_up_duration} sdd={c.shut_down_duration} "
+        in_nodes_section = node.config.hostname in decl_nodes   # the defaults section reaches the `nodes:` entries only
+        fsd = []
+        for key, attr in (("folder_scan_duration", "scan_duration"), ("folder_restore_duration", "restore_duration")):
+            if key in dflt and in_nodes_section:
+                vals = sorted({getattr(f, attr) for f in node.file_system.folders.values()})
+                fsd.append(_num(vals[0]) if len(vals) == 1 else "MIXED:" + ",".join(map(_num, vals)))
+            else:
+                fsd.append("-")
+        out.append(f"node {h} {node._discriminator} {node.operating_state.name} sud={_num(c.start_up_duration)} sdd={_num(c.shut_down_duration)} "
+                   f"scan={_num(c.node_scan_duration)} fsd={fsd[0]}/{fsd[1]} "
                    f"dns={_o(getattr(c, 'dns_server', None))} gw={_o(getattr(c, 'default_gateway', None))}")
         for num, nic in node.network_interface.items():
             ip = getattr(nic, "ip_address", None)
             mask = getattr(nic, "subnet_mask", None)
             pname = getattr(nic, "port_name", None)
             wired = getattr(nic, "_connected_link", None) is not None
-            out.append(f"nic {h} {num} {_o(pname)} {_o(ip)} {_o(mask)} wired={1 if wired else 0} en={1 if nic.enabled else 0}")
+            freq = getattr(nic, "frequency", None)
+            out.append(f"nic {h} {num} {_o(pname)} {_o(ip)} {_o(mask)} wired={1 if wired else 0} en={1 if nic.enabled else 0} "
+                       f"freq={_o(getattr(freq, 'name', freq))}")
         if len(node.network_interface) != len(node.network_interfaces):
             out.append(f"nic-maps-differ {h} {len(node.network_interface)} {len(node.network_interfaces)}")
         if isinstance(node, Router):
@@ -134,14 +151,21 @@ def inventory(game, cfg: Dict) -> List[str]:
             live[inst.name] = live.get(inst.name, 0) + 1
         dn = decl_nodes.get(node.config.hostname, {})
         decl_sw = {}
+        decl_svc = set()
         for e in (dn.get("services") or []):
             decl_sw[e["type"]] = e
+            decl_svc.add(e["type"])
         for e in (dn.get("applications") or []):
             decl_sw[e["type"]] = e
+            decl_svc.discard(e["type"])
         for name, sw in sm.software.items():
             kind = "app" if isinstance(sw, Application) else "svc"
+            dopts = (decl_sw.get(name) or {}).get("options") or {}
+            # what the defaults section imposes on a configured service: its fixing duration unless the entry has one, its restart duration
+            dfix = sw.config.fixing_duration if ("service_fix_duration" in dflt and name in decl_svc and "fixing_duration" not in dopts) else None
+            drst = getattr(sw, "restart_duration", "<none>") if ("service_restart_duration" in dflt and name in decl_svc) else None
             out.append(f"sw {h} {name} {kind} n={live.get(name, 0)} st={sw.operating_state.name} h={sw.health_state_actual.name} "
-                       f"{built_opts(sw, (decl_sw.get(name) or {}).get('options') or {})}".rstrip())
+                       f"dfl={'-' if dfix is None else _num(dfix)}/{'-' if drst is None else _num(drst)} {built_opts(sw, dopts)}".rstrip())
         for name in live:
             if name not in sm.software:
                 out.append(f"sw {h} {name} orphan n={live[name]}")
@@ -179,7 +203,19 @@ def inventory(game, cfg: Dict) -> List[str]:
             o = {k: getattr(comp.config, k, "<no-such-field>") for k in (d.get("options") or {})}
             out.append(f"rew {_name(ref)} {i} {_reward_type(comp)} {tok(weight)} {tok(o)}")
         out.append(f"aset {_name(ref)} " + tok({k: getattr(ag.config.agent_settings, k, '<no-such-field>') for k in (acfg.get("agent_settings") or {})}))
+    o = game.options
+    out.append(f"game len={o.max_episode_length} seed={_o(None if o.seed is None else tok(o.seed))} ports={','.join(str(int(p)) for p in o.ports)} "
+               f"protocols={','.join(str(p).lower() for p in o.protocols)} thresholds={tok(o.thresholds if o.thresholds is not None else {})}")
+    for fname, fr in net.airspace.frequencies.items():
+        out.append(f"airspace {fname} {bps_token(fr.data_rate_bps)}")
     return sorted(out)
+
+
+def bps_token(v) -> str:
+    """A capacity in bits per second, exactly (the loader multiplies the file's Mbps by 1024 * 1024, a power of two)."""
+    from fractions import Fraction
+    f = Fraction(v)
+    return str(f.numerator) if f.denominator == 1 else f"{f.numerator}/{f.denominator}"
 
 
 def _reward_type(comp) -> str:
@@ -229,7 +265,8 @@ def live_readings(sw, k: str) -> Dict[str, str]:
     rd = LIVE_OPTIONS.get(sw.name, {}).get(k) or LIVE_OPTIONS["*"].get(k)
     try:
         if rd is not None:
-            out["live"] = tok(rd(sw))
+            v = rd(sw)
+            out["live"] = "<unset>" if v is None else tok(v)
         if k != "listen_on_ports":
             if k in type(sw.config).model_fields:
                 out["config"] = tok(getattr(sw.config, k))
@@ -331,8 +368,11 @@ def _rule_line(aclname: str, pos, r: Dict) -> str:
     sp = "-" if not r.get("src_port") else str(PORT_LOOKUP[r["src_port"]])
     dp = "-" if not r.get("dst_port") else str(PORT_LOOKUP[r["dst_port"]])
     pr = "-" if not r.get("protocol") else str(PROTOCOL_LOOKUP[r["protocol"]]).lower()
-    return (f"acl {aclname} {int(pos)} {r['action']} {pr} {_ipt(r.get('src_ip'))} {_ipt(r.get('src_wildcard_mask'))} "
-            f"{_ipt(r.get('dst_ip'))} {_ipt(r.get('dst_wildcard_mask'))} {sp} {dp}")
+    # an address may be written `src_ip` (the shipped scenarios) or `src_ip_address` (the documentation); the shipped key wins
+    sip = r["src_ip"] if "src_ip" in r else r.get("src_ip_address")
+    dip = r["dst_ip"] if "dst_ip" in r else r.get("dst_ip_address")
+    return (f"acl {aclname} {int(pos)} {r['action']} {pr} {_ipt(sip)} {_ipt(r.get('src_wildcard_mask'))} "
+            f"{_ipt(dip)} {_ipt(r.get('dst_wildcard_mask'))} {sp} {dp}")
 
 
 def _state(v) -> str:
@@ -347,17 +387,41 @@ def _state(v) -> str:
 
 def scenario_lines(cfg: Dict) -> List[str]:
     """The scenario as driver input (drv_c20). Raises Unmodelled for constructs outside the modelled loader."""
+    from fractions import Fraction
+    from primaite.utils.validation.ip_protocol import PROTOCOL_LOOKUP
+    from primaite.utils.validation.port import PORT_LOOKUP
     net = (cfg.get("simulation") or {}).get("network") or {}
-    if (cfg.get("defaults") or {}):
-        raise Unmodelled("defaults section")
     lines: List[str] = []
+    g = cfg.get("game") or {}
+    csv = lambda xs: ",".join(xs) if xs else "-"
+    lines.append(f"game {_o(g.get('max_episode_length'))} {_o(None if g.get('seed') is None else tok(g['seed']))} "
+                 f"{csv([str(PORT_LOOKUP[p] if isinstance(p, str) else int(p)) for p in g.get('ports', [])])} "
+                 f"{csv([str(PROTOCOL_LOOKUP[p] if p in PROTOCOL_LOOKUP else p).lower() for p in g.get('protocols', [])])} "
+                 f"{tok(g.get('thresholds') if g.get('thresholds') is not None else {})}")
+    extra_game = set(g) - {"max_episode_length", "seed", "ports", "protocols", "thresholds", "generate_seed_value"}
+    if extra_game:
+        raise Unmodelled(f"game keys {sorted(extra_game)}")
+    air = (net.get("airspace") or {})
+    if set(air) - {"frequency_max_capacity_mbps"}:
+        raise Unmodelled(f"airspace keys {sorted(air)}")
+    for f, mbps in (air.get("frequency_max_capacity_mbps") or {}).items():
+        lines.append(f"airspace {tok(f)} {bps_token(Fraction(mbps) * 1024 * 1024)}")
+    d = cfg.get("defaults") or {}
+    dkeys = ["node_start_up_duration", "node_shut_down_duration", "node_scan_duration", "folder_scan_duration", "folder_restore_duration",
+             "service_fix_duration", "service_restart_duration", "service_install_duration"]
+    if set(d) - set(dkeys):
+        raise Unmodelled(f"defaults keys {sorted(set(d) - set(dkeys))}")
+    if d:
+        lines.append("defaults " + " ".join(_o(d.get(k)) for k in dkeys))
     for n in net.get("nodes") or []:
         t = n["type"]
         if t not in MODELLED_NODE_TYPES:
             raise Unmodelled(f"node type {t}")
         known = {"hostname", "type", "operating_state", "start_up_duration", "shut_down_duration", "dns_server", "default_gateway",
                  "ip_address", "subnet_mask", "network_interfaces", "services", "applications", "users", "folders", "num_ports", "ports",
-                 "acl", "routes", "default_route"}
+                 "acl", "routes", "default_route", "router_interface", "wireless_access_point"}
+        if t == "wireless-router" and (n.get("ports") or n.get("num_ports")):
+            raise Unmodelled("wireless router with wired ports")
         extra = set(n) - known
         if extra:
             raise Unmodelled(f"node keys {sorted(extra)}")
@@ -378,7 +442,15 @@ def scenario_lines(cfg: Dict) -> List[str]:
                 lines.append(f"port {int(k)} {v['ip_address']} {_ipt(v.get('subnet_mask'))}")
             for pos, r in (n.get("acl") or {}).items():
                 lines.append(_rule_line("acl", pos, r))
-        if t in ("router", "firewall"):
+        elif t == "wireless-router":
+            if "router_interface" in n:
+                lines.append(f"routerif {n['router_interface']['ip_address']} {n['router_interface']['subnet_mask']}")
+            if "wireless_access_point" in n:
+                w = n["wireless_access_point"]
+                lines.append(f"wap {w['ip_address']} {w['subnet_mask']} {tok(w['frequency'])}")
+            for pos, r in (n.get("acl") or {}).items():
+                lines.append(_rule_line("acl", pos, r))
+        if t in ("router", "firewall", "wireless-router"):
             for r in n.get("routes") or []:
                 m = r.get("metric")
                 if m is not None and float(m) != int(m):
@@ -403,9 +475,11 @@ def scenario_lines(cfg: Dict) -> List[str]:
             lines.append(f"folder {tok(fd['folder_name'])}")
             for f in fd.get("files") or []:
                 lines.append(f"file {tok(fd['folder_name'])} {tok(built_file_name(f))} {_o(f.get('size') or None)} {_o(None if 'type' not in f else f['type'].upper())}")
-    if net.get("node_sets"):
-        # the office-lan adder has its own Lean model (officeBuild) and its own rig family; it is not part of `build`
-        raise Unmodelled("node sets inside a scenario")
+    for ns in net.get("node_sets") or []:
+        if ns.get("type") != "office-lan":
+            raise Unmodelled(f"node set {ns.get('type')}")
+        lines.append(f"nodeset {tok(ns['lan_name'])} {ns['subnet_base']} {ns['pcs_ip_block_start']} {ns['num_pcs']} "
+                     f"{'-' if 'include_router' not in ns else (1 if ns['include_router'] else 0)} {_o(ns.get('bandwidth'))}")
     for l in net.get("links") or []:
         lines.append(f"link {tok(l['endpoint_a_hostname'])} {l['endpoint_a_port']} {tok(l['endpoint_b_hostname'])} {l['endpoint_b_port']} "
                      f"{_o(l.get('bandwidth'))}")
